@@ -160,6 +160,39 @@ def export_args_ok(wb):
     return False
 
 
+def single_batch_ok(wb):
+    """the reader accepts exactly one record batch (`multiple batches` is an error): the writer must write the whole exported
+    struct array as one chunk — one FileWriter::write call, outside any loop or closure, whose chunk is built from the
+    into_struct_array value itself (not a slice of it), followed by finish()"""
+    import safety
+    root = wb["tir"]["value"]
+    env = tir.LetEnv(root)
+    writes = [c for c in tir.walk(root) if c.get("k") == "MethodCall" and c["method"] == "write" and (declared(c) or "").startswith("arrow2::io::ipc::write::FileWriter")]
+    if len(writes) != 1:
+        return False, "%d FileWriter::write calls" % len(writes)
+    parents = safety.parents(root)
+    y = writes[0]
+    while id(y) in parents:
+        y = parents[id(y)]
+        if y.get("k") in ("For", "Loop", "Closure"):
+            return False, "the write is inside a %s" % y["k"]
+    chunk = env.resolve(writes[0]["args"][0], peel=True) if writes[0].get("args") else {}
+    if not (chunk.get("k") == "Call" and (declared(chunk) or chunk.get("path") or "").endswith("Chunk::<A>::new") or (chunk.get("k") == "Call" and "Chunk" in (chunk.get("path") or "") and (chunk.get("path") or "").endswith("::new"))):
+        return False, "the chunk is %s" % tir.pretty(chunk)[:60]
+    srcs = [x for x in tir.walk(chunk) if x.get("k") == "Path" and x.get("res") == "local"]
+    arrays = []
+    for x in srcs:
+        r = env.resolve(x, peel=True)
+        arrays.append(r)
+    whole = [r for r in arrays if r.get("k") == "MethodCall" and r["method"] == "into_struct_array"]
+    if len(whole) != 1 or len(arrays) != 1:
+        return False, "the chunk is not built from the exported struct array alone (%s)" % [tir.pretty(r)[:40] for r in arrays]
+    if any(x.get("k") == "MethodCall" and x["method"] in ("sliced", "slice", "sliced_unchecked", "slice_unchecked") for x in tir.walk(chunk)):
+        return False, "the chunk holds a slice of the exported array"
+    fin = [c for c in tir.walk(root) if c.get("k") == "MethodCall" and c["method"] == "finish" and (declared(c) or "").startswith("arrow2::io::ipc::write::FileWriter")]
+    return len(fin) == 1, "finish() called %d times" % len(fin)
+
+
 def import_args_ok(F, arms):
     """frames.arrow is decoded with the version of the start block stored by the start.raw arm of the same loop"""
     fa, sa = arms.get("frames.arrow"), arms.get("start.raw")
@@ -217,6 +250,8 @@ def compression_rule(F, rep):
     rep.ob("arrow.single-batch", "multiple batches" in "".join(str(x.get("v")) for x in tir.walk(F.body("io::peppi::de::read_arrow_frames")["tir"]["value"]) if x.get("k") == "Lit" and x.get("lit") == "str") or "Some(_) => return" in rt,
            "io::peppi::de::read_arrow_frames", "batches", "exactly one record batch is written and expected")
     wt = tir.pretty(wb["tir"]["value"])
+    sb_ok, sb_why = single_batch_ok(wb)
+    rep.ob("arrow.single-batch", sb_ok, peppifmt.WRITE, "batches", "the .slpp writer must emit the frames as exactly one record batch (the reader rejects a second one): %s" % sb_why)
     rep.ob("arrow.version", export_args_ok(wb), peppifmt.WRITE, "export-args",
            "frames must be exported with the game's own version and port occupancy")
     arms, m, loop = peppifmt.reader_arms(F)
@@ -259,6 +294,11 @@ def run(F, rep, tier):
     rep.floor("generated structs with arrow siblings", len([s for s in model.GEN if M.has(s, "into") and M.has(s, "fromsa")]), 11)
     model.rule_L4(rep, M)
     model.rule_L5(rep, M)
+    # the exported schema carries, per version class, exactly the fields the .slp side reads and writes for that class:
+    # a field gated later on the Arrow side than in the reader would be dropped by .slpp and missing when re-serialising
+    from props import C14
+    C14.schema_vs_table(rep, M)
+    model.rule_gate_consistent(rep, M, sibs=("into",))
     containers.data_rule(F, rep)
     containers.portdata_rule(F, rep)
     containers.frame_rule(F, rep, M)
@@ -278,7 +318,7 @@ def run(F, rep, tier):
     model.rule_exact(rep, M1)
     model.rule_L3(rep, M1, sibs=("from",))
     emission.rule_emission(F, rep, M1)
-    C04.bracketing_rule(F, G, rep, M1)
+    C04.structure_rules(F, G, rep, M1)
     # absent metadata stays absent through .slpp (null -> None, object -> Some(map), slot takes the Option unchanged)
     from props import C16
     C16.absence_rule(F, rep)
